@@ -867,6 +867,17 @@ def check_mask_given(out, rng, okind, entry, az, el, ops, mkind="", coords=(10.0
 PARENT_NAME = {"default": "ITRF", "WGS84": "ITRF", "ITRF": "ITRF", "PEF": "PEF", "TIRF": "TIRF"}
 
 
+def creation_failure(out, e, inp_s, mgiven, entry, violates=False):
+    """a station of a sweep could not be created with the options it was given: a failure of the oracle (or a disagreement), never a harness error"""
+    arr = mgiven is not None and MASK_OBJ_KINDS[mgiven[0]] == "arr" and isinstance(e, ValueError) and "truth value of an" in str(e)
+    fam = "mask-given-rejected-ndarray-truth-value" if arr else ("mask-given-rejected-" + mgiven[0] if mgiven is not None else "station-creation-raises")
+    inp = dict(inp_s)
+    if mgiven is not None:
+        inp.update(okind=mgiven[0], entry=entry, given=[list(mgiven[1]), list(mgiven[2])], ops=[])
+    out.fail(fam, "create_station / TopocentricFrame raises for valid coordinates and options" + (f" (mask given as {mgiven[0]} through {entry})" if mgiven is not None else ""),
+             inp, observed=repr(e), expected="a station", **({"violates_property": True} if violates else {}))
+
+
 def station_options(rng, k):
     """(parent, mask_given, entry) for the k-th station of a sweep: the first ones are plain create_station(name, coords) calls"""
     if k < 3 or rng.random() < 0.4:
@@ -944,7 +955,11 @@ def oracle(ctx, widened):
         # every option of create_station: the Earth-fixed frame the coordinates are given in, a mask handed over at creation
         parent, mgiven, entry = station_options(rng, k)
         pframe = PARENT_NAME[parent]
-        st = new_station(lat_d, lon_d, alt, kind=ckind, parent=parent, mask_given=mgiven, entry=entry)
+        try:
+            st = new_station(lat_d, lon_d, alt, kind=ckind, parent=parent, mask_given=mgiven, entry=entry)
+        except Exception as e:  # noqa: BLE001
+            creation_failure(out, e, {"latlonalt_deg_m": [lat_d, lon_d, alt], "coords_kind": ckind, "parent": parent}, mgiven, entry)
+            continue
         lat_d, lon_d, alt = st.c11_deg
         lat, lon = math.radians(lat_d), math.radians(lon_d)
         inp_s = {"latlonalt_deg_m": [lat_d, lon_d, alt], "coords_kind": ckind}
@@ -1486,7 +1501,11 @@ def correspondence(ctx):
         # every option of create_station: the Earth-fixed frame the coordinates are given in (the model works in that frame), a mask handed over at creation
         parent, mgiven, entry = station_options(rng, k)
         pframe = PARENT_NAME[parent]
-        st = new_station(lat_d, lon_d, alt, kind=ckind, parent=parent, mask_given=mgiven, entry=entry)
+        try:
+            st = new_station(lat_d, lon_d, alt, kind=ckind, parent=parent, mask_given=mgiven, entry=entry)
+        except Exception as e:  # noqa: BLE001
+            creation_failure(out, e, {"latlonalt_deg_m": [lat_d, lon_d, alt], "coords_kind": ckind, "parent": parent}, mgiven, entry)
+            continue
         lat_d, lon_d, alt_d = st.c11_deg             # exact values of what was passed to create_station
         lat, lon, alt = (float(c) for c in st.latlonalt)   # what the code made of them (radians, metres)
         inp_s = {"latlonalt_deg_m": [lat_d, lon_d, alt_d], "coords_kind": ckind}
@@ -1642,7 +1661,7 @@ def correspondence(ctx):
         equat = rng.random() < 0.12
         try:
             stn = new_station(rng.uniform(-80, 80), rng.uniform(-180, 180), rng.uniform(0, 3000), mask_given=(okind, az, el), entry=entry, parent=parent, equatorial=equat)
-        except ValueError:
+        except Exception:  # noqa: BLE001
             real = "raises"
         else:
             s0 = real_store(stn)
